@@ -4,7 +4,7 @@
 //! Output has the model's format: per op  `<op>=<cid>@<call>w<worker idx>,.../a<in progress per worker>`.
 //!
 //! Real threads, real time: after each op the harness waits until as many service calls have started as the
-//! model expects (bound 12 s), then a quiet period during which nothing more may start. A result that differs from
+//! model expects (bound 6 s), then a quiet period during which nothing more may start. A result that differs from
 //! `exp` is re-run with a 4x and a 10x longer quiet period (always below the 500 ms accept back-off); only a difference that persists is reported
 //! (` | retries=<n>` is appended as a diagnostic and stripped before comparison).
 use std::{
@@ -24,7 +24,7 @@ use actix_server::{Server, ServerHandle};
 use actix_service::fn_service;
 use tokio::io::{AsyncReadExt, AsyncWriteExt};
 
-const BOUND: Duration = Duration::from_secs(12);
+const BOUND: Duration = Duration::from_secs(6);
 const MAXW: usize = 8;
 
 #[derive(Default)]
@@ -302,7 +302,7 @@ fn start(w: usize, l: usize, chain: &[String], dir: &PathBuf, sh: &Arc<Shared>, 
             // `Server` starts its accept thread and workers on the first poll of its future; a command is acknowledged
             // only once that has happened (Resume on a running server changes nothing)
             if block_on(handle.resume()).is_none() {
-                return Err("server did not acknowledge a command within 12 s of starting".into());
+                return Err("server did not acknowledge a command within 6 s of starting".into());
             }
             Ok(Running { handle, addrs, thread })
         }
@@ -492,7 +492,7 @@ fn run_once(line: &str, dir: &PathBuf, quiet: Duration) -> String {
         // once a run has failed to deliver in time the remaining steps only wait 1 s each
         let bound = if starved { Duration::from_secs(1) } else { BOUND };
         if !wait_until_for(bound, || sh.served.lock().unwrap().len() >= want) {
-            note.push_str("!expected-service-call-did-not-start-within-12s");
+            note.push_str("!expected-service-call-did-not-start-within-6s");
             starved = true;
         }
         std::thread::sleep(if op.as_bytes()[0] == b'E' { quiet.min(Duration::from_millis(200)) } else { quiet });
@@ -548,6 +548,9 @@ pub fn run(line: &str, dir: &PathBuf, n: usize) -> String {
     let base: u64 = std::env::var("BLD_QUIET_MS").ok().and_then(|s| s.parse().ok()).unwrap_or(40);
     let mut last = String::new();
     for (retry, mult) in [1u64, 4, 10].iter().enumerate() {
+        if retry == 2 && last.contains('!') {
+            break; // a run with a time-out or an error note was confirmed once already
+        }
         let d = dir.join(format!("bld{n}_{retry}"));
         std::fs::create_dir_all(&d).unwrap();
         last = run_once(line, &d, Duration::from_millis(base * mult));
